@@ -61,3 +61,18 @@ contract("History._find_dependencies", source=M + "History._find_dependencies", 
                   "forall(lambda t: implies(0 <= t and t < len(result), exists(lambda k: 0 <= k and k < len(change_list) and change_list[k] == result[t])))",
                   "distinct(result)"],
          note="the contract History.undo/redo use (c11_history.py), here verified from the body: index, slice, constructor, __call__")
+
+# ---- History.get_file_undo_list: the changes of the undo list that touch a resource --------------------------------------------------------
+REG.records["History"].fields.update({"_undo_list": "Seq[Change]"})
+REG.records["History"].aliases = {"undo_list": "_undo_list"}
+specdef("touches", {"c": "Change", "r": "Resource"}, "Bool", "exists(lambda a: 0 <= a and a < len(res_of(c)) and res_of(c)[a] == r)")
+contract("History.get_file_undo_list", source=M + "History.get_file_undo_list", params={"self": "History", "resource": "Resource"}, returns="Seq[Change]",
+         modifies=[], raises={},
+         ensures=["forall(lambda t: implies(0 <= t and t < len(result), has(self._undo_list, result[t]) and resource in res_of(result[t])))",
+                  "forall(lambda k: implies(0 <= k and k < len(self._undo_list) and resource in res_of(self._undo_list[k]), self._undo_list[k] in result))",
+                  "len(result) <= len(self._undo_list)"],
+         loops={1: {"index": "i", "elem": "Change", "inv": [
+             "len(_comp) <= i",
+             "forall(lambda t: implies(0 <= t and t < len(_comp), exists(lambda k: 0 <= k and k < i and self._undo_list[k] == _comp[t]) and resource in res_of(_comp[t])))",
+             "forall(lambda k: implies(0 <= k and k < i and resource in res_of(self._undo_list[k]), self._undo_list[k] in _comp))"]}},
+         note="exactly the recorded changes that announce the resource, none missing")
